@@ -707,3 +707,42 @@ func vqDropSelectorTime(s vqStmt, c vqCanon) {
 		}
 	}
 }
+
+// Directed campaign for known finding slimit-applied-per-shard.
+func TestVerifC11KFSlimit(t *testing.T) {
+	stats := verifkit.For("C11", "TestVerifC11KFSlimit", "directed: 6 series spread over hourly shards, SELECT last(i) ... GROUP BY * SLIMIT 2 on the one-shard layout and on the hourly-shard layout")
+	defer stats.Flush()
+	cl, err := vkSharedCluster()
+	if err != nil {
+		t.Fatalf("cluster: %v", err)
+	}
+	db := fmt.Sprintf("c11kf_%d", os.Getpid())
+	if err := vqEnsureDB(cl, db); err != nil {
+		t.Fatal(err)
+	}
+	var pts []vqPoint
+	for i, h := range []string{"a", "b", "c"} {
+		for j, r := range []string{"x", "y"} {
+			pts = append(pts, vqPoint{Host: h, Region: r, TS: int64((i*2+j)*3600 + 5), F: 1, I: int64(i*2 + j), S: "s", B: true})
+		}
+	}
+	for _, l := range vqLayouts {
+		if err := cl.nodes[0].srv.PointsWriter.WritePointsPrivileged(db, l.Name, models.ConsistencyLevelAll, vqModelPoints("m", pts)); err != nil {
+			t.Fatal(err)
+		}
+	}
+	cl.syncMeta()
+	res := map[string]int{}
+	for _, l := range vqLayouts {
+		got, errs := vqRun(cl, 0, db, fmt.Sprintf("SELECT last(i) FROM %s.%s.m GROUP BY * SLIMIT 2", db, l.Name))
+		if errs != "" {
+			t.Fatalf("query: %s", errs)
+		}
+		res[l.Name] = len(got)
+		stats.Case(true, fmt.Sprintf("%s:%d", l.Name, len(got)), "directed")
+	}
+	stats.Sample(res)
+	if res["l1"] != res["l3"] {
+		stats.KnownReproduced("slimit-applied-per-shard", fmt.Sprintf("SELECT last(i) ... GROUP BY * SLIMIT 2 returns %d series when all data is in one shard and %d series when the series are spread over hourly shards", res["l1"], res["l3"]))
+	}
+}
